@@ -15,6 +15,8 @@ package v2
 //@   ensures [one-alert-per-entry] fresh(result) && len(result) == len(apiAlerts) && (forall i int :: 0 <= i && i < len(result) ==> result[i] != nil && fresh(result[i]) && !result[i].Timeout)
 //@   ensures [distinct] forall i int, j int :: 0 <= i && i < j && j < len(result) ==> result[i] != result[j]
 //@   ensures [null-entry-becomes-an-invalid-alert] forall i int :: 0 <= i && i < len(apiAlerts) && apiAlerts[i] == nil ==> result[i].Labels == nil && result[i].StartsAt == 0
+//@   ensures [times-exactly-as-posted] forall i int :: 0 <= i && i < len(apiAlerts) && apiAlerts[i] != nil ==> result[i].StartsAt == apiAlerts[i].StartsAt && result[i].EndsAt == apiAlerts[i].EndsAt
+//@   loop 1 invariant forall i int :: 0 <= i && i <= rangeindex && apiAlerts[i] != nil ==> alerts[i].StartsAt == apiAlerts[i].StartsAt && alerts[i].EndsAt == apiAlerts[i].EndsAt
 //@   loop 1 invariant rangeindex < len(apiAlerts) && fresh(alerts) && len(alerts) == rangeindex + 1
 //@   loop 1 invariant forall i int :: 0 <= i && i < len(alerts) ==> alerts[i] != nil && fresh(alerts[i]) && !alerts[i].Timeout
 //@   loop 1 invariant forall i int, j int :: 0 <= i && i < j && j < len(alerts) ==> alerts[i] != alerts[j]
